@@ -849,7 +849,13 @@ func (e *Enc) runFunc(fc *fctx, guard string, st *State) []retInfo {
 				var vs []Val
 				for _, r := range x.Results {
 					e.publishCheck(cur, r, x.Pos(), "returned")
-					vs = append(vs, e.value(fc, r))
+					rv := e.value(fc, r)
+					if rv.K == vLocal && e.lazy[rv.Alloc] {
+						// the address of a lazily allocated local is returned: it escapes here
+						e.materialize(cur, rv.Alloc)
+						rv = e.resolveLocal(cur.st, rv)
+					}
+					vs = append(vs, rv)
 				}
 				rets = append(rets, retInfo{cur.guard, cur.st, vs, x.Pos()})
 			case *ssa.Panic:
